@@ -71,6 +71,11 @@ pub fn parked_workers(market: usize) -> usize {
     waiting.len()
 }
 
+/// Number of events this market has logged so far (not yet taken).
+pub fn market_event_count(market: usize) -> u64 {
+    LOG.get().unwrap().lock().unwrap().get(&market).map(|v| v.len() as u64).unwrap_or(0)
+}
+
 pub fn peek_events(market: usize, last: usize) -> Vec<String> {
     let log = LOG.get().unwrap().lock().unwrap();
     log.get(&market)
@@ -377,7 +382,8 @@ pub fn diagnose_hang(market: Option<usize>) -> (Option<String>, Value) {
     for _ in 0..3 {
         let snap = market.and_then(|m| verif::market_snapshots().into_iter().find(|(id, _)| *id == m).map(|(_, s)| s));
         pictures.push(format!("{:?}", snap));
-        counts.push(EVENT_COUNT.load(Ordering::Relaxed));
+        // silence of *this* market (other cases running in parallel keep the global counter busy)
+        counts.push(market.map(market_event_count).unwrap_or_else(|| EVENT_COUNT.load(Ordering::Relaxed)));
         std::thread::sleep(Duration::from_secs(1));
     }
     // stable = the picture does not change AND the market emits no events at all
@@ -734,6 +740,157 @@ fn early_stop_case(case: &mut Case) {
     }
 }
 
+/// The on-demand checker driven step by step: targeted `check_fingerprint` requests while the
+/// workers hold pending states and wait for commands, then `run_to_completion` and `join`.
+/// Whatever the requests were and whichever worker stopped first (all properties discovered),
+/// `join` must return, no state may be evaluated twice, and a run that was not cut short must
+/// have evaluated exactly the reachable set.
+fn on_demand_stepwise_case(case: &mut Case) {
+    let mut g = gen_graph(&mut case.rng, &Knobs { max_n: 30, allow_outside_inits: false, ..Knobs::default() });
+    let mut reach = g.reach();
+    for _ in 0..6 {
+        if reach.count >= 4 {
+            break;
+        }
+        g = gen_graph(&mut case.rng, &Knobs { max_n: 30, allow_outside_inits: false, ..Knobs::default() });
+        reach = g.reach();
+    }
+    if reach.count < 3 {
+        case.distinct(g.structural_hash(), false);
+        case.add("on_demand_stepwise_skipped_tiny_model", 1);
+        return;
+    }
+    // Either every property can be discovered (the worker that makes the last discovery stops
+    // while others still hold states) or a keep-alive keeps the run exhaustive.
+    let stop_early = case.rng.pct(65);
+    if stop_early {
+        for _ in 0..case.rng.range(1, 2) {
+            let reachable: Vec<usize> = (0..g.n).filter(|s| reach.reachable[*s] && reach.dist[*s] >= 1).collect();
+            if reachable.is_empty() {
+                break;
+            }
+            let witness = *case.rng.pick(&reachable);
+            let sometimes = case.rng.pct(50);
+            let mut l = vec![!sometimes; g.n];
+            l[witness] = sometimes;
+            g.labels.push(l);
+            g.props.push((if sometimes { Expectation::Sometimes } else { Expectation::Always }, g.labels.len() - 1));
+        }
+        if g.props.is_empty() {
+            case.distinct(g.structural_hash(), false);
+            return;
+        }
+    } else {
+        add_props_with_keepalive(&mut case.rng, &mut g, &reach, 1);
+    }
+    case.distinct(g.structural_hash() ^ stop_early as u64, true);
+    let model = GraphModel(Arc::new(g));
+    case.sample(|| model.summary());
+    let threads = *case.rng.pick(&[2usize, 2, 3, 4, 8]);
+    let slog = StateLog::default();
+    let c = model.clone().checker().threads(threads).visitor(slog.clone()).spawn_on_demand();
+    let market = my_market();
+    // step-wise phase: request generated-but-unevaluated states, following the oracle's frontier
+    let mut frontier: Vec<u32> = model.inits.iter().copied().filter(|s| model.inb[*s as usize]).collect();
+    let mut generated: BTreeSet<u32> = frontier.iter().copied().collect();
+    let mut requested = Vec::new();
+    let steps = case.rng.range(1, 8);
+    'steps: for _ in 0..steps {
+        if frontier.is_empty() {
+            break;
+        }
+        let s = frontier.swap_remove(case.rng.below(frontier.len()));
+        let Some(fp) = std::num::NonZeroU64::new(verif::fingerprint_of(&s)) else { break };
+        c.check_fingerprint(fp);
+        requested.push(s);
+        // wait (bounded) until the visitor has been shown the requested state
+        let t = Instant::now();
+        loop {
+            if slog.0.lock().unwrap().contains(&s) {
+                break;
+            }
+            if t.elapsed() > Duration::from_millis(300) {
+                // not evaluated: the workers may have stopped already (all properties
+                // discovered); go on to completion
+                break 'steps;
+            }
+            std::thread::sleep(Duration::from_micros(100));
+        }
+        for e in &model.out[s as usize] {
+            if let Some(t) = e {
+                if model.inb[*t as usize] && generated.insert(*t) {
+                    frontier.push(*t);
+                }
+            }
+        }
+        if case.rng.pct(30) {
+            std::thread::sleep(Duration::from_micros(case.rng.range(50, 2000) as u64));
+        }
+    }
+    case.add("on_demand_stepwise_requests", requested.len() as u64);
+    c.run_to_completion();
+    match join_with_watchdog(c, Duration::from_secs(20)) {
+        Joined::Hung => {
+            // the workers wait on their command channels, not in the market: three silent,
+            // identical market pictures after run_to_completion was sent = nobody will ever move
+            let (class, evidence) = diagnose_hang(market);
+            match class {
+                Some(class) => case.violation(
+                    &format!("C05/on-demand-stepwise/on_demand/join-hangs-after-run_to_completion:{}", class),
+                    json!({"model": model.summary(), "threads": threads, "requested": requested, "diagnosis": evidence,
+                           "evaluated_so_far": slog.0.lock().unwrap().len()}),
+                ),
+                None => case.inconclusive("step-wise on-demand: join not back within the watchdog but the market is still changing"),
+            }
+        }
+        Joined::Panicked(msg, _) => {
+            case.violation("C05/on-demand-stepwise/on_demand/join-panicked-without-model-panic", json!({"model": model.summary(), "threads": threads, "panic": msg}));
+        }
+        Joined::Returned(c, _) => {
+            case.add("on_demand_stepwise_joins", 1);
+            let visited = slog.take();
+            let discovered = match guarded(|| c.discoveries().len()) {
+                Ok(n) => n,
+                Err(msg) => {
+                    case.violation("C05/on-demand-stepwise/on_demand/discoveries-panicked", json!({"model": model.summary(), "panic": msg}));
+                    return;
+                }
+            };
+            let cut_short = discovered == model.props.len();
+            if cut_short {
+                case.add("on_demand_stepwise_stopped_by_discoveries", 1);
+            }
+            let mut seen = vec![0u32; model.n];
+            for s in &visited {
+                seen[*s as usize] += 1;
+            }
+            for s in 0..model.n {
+                let what = if seen[s] > 1 {
+                    "state-evaluated-twice"
+                } else if seen[s] == 1 && !reach.reachable[s] {
+                    "unreachable-state-evaluated"
+                } else if seen[s] == 0 && reach.reachable[s] && !cut_short {
+                    "state-lost"
+                } else {
+                    continue;
+                };
+                case.violation(
+                    &format!("C05/on-demand-stepwise/on_demand/{}", what),
+                    json!({"model": model.summary(), "threads": threads, "state": s, "times": seen[s], "requested": requested,
+                           "visited": visited.len(), "reachable": reach.count}),
+                );
+                return;
+            }
+            if !c.is_done() {
+                case.violation("C05/on-demand-stepwise/on_demand/not-done-after-join", json!({"model": model.summary(), "threads": threads}));
+                return;
+            }
+            drop(c);
+            account_market(case, market, Strat::OnDemand, &model, threads);
+        }
+    }
+}
+
 /// A panic in model code must surface from `join` (not hang) for every strategy.
 fn panic_case(case: &mut Case) {
     let large = case.rng.pct(50);
@@ -982,6 +1139,10 @@ pub fn run(ctx: &mut Ctx) {
                 case.rng = Rng::new(case.rng.next_u64() ^ rep);
                 early_stop_case(case);
             });
+            ctx.cases(&format!("on_demand_stepwise/{}", pname), ctx.n(40, 150), 0, |case| {
+                case.rng = Rng::new(case.rng.next_u64() ^ rep);
+                on_demand_stepwise_case(case);
+            });
             for bs in [0usize, 2] {
                 verif::set_block_size(bs);
                 ctx.cases(&format!("model_panic/{}/block{}", pname, bs), ctx.n(4, 12), 0, |case| {
@@ -1013,6 +1174,7 @@ fn lane_workload(ctx: &Ctx) {
         }
         verif::set_block_size(0);
         ctx.cases(&format!("lane/early_stop/{}", pname), 2, 1, early_stop_case);
+        ctx.cases(&format!("lane/on_demand_stepwise/{}", pname), 12, 4, on_demand_stepwise_case);
         ctx.cases(&format!("lane/exhaustive_large/{}", pname), 1, 1, |case| exhaustive_case(case, true, &[4, 8]));
     }
     set_profile(0, 0);
